@@ -24,6 +24,7 @@ import (
 	"package-operator.run/internal/packages/zzverif/checks"
 	_ "package-operator.run/internal/packages/zzverif/checks/all"
 	"package-operator.run/internal/packages/zzverif/report"
+	"package-operator.run/internal/packages/zzverif/world"
 )
 
 const verifDir = "/verif"
@@ -75,6 +76,8 @@ func runShard(id string, args []string) int {
 		fmt.Fprintln(os.Stderr, "no such check", id)
 		return 2
 	}
+	known := loadKnown()
+	world.Tolerated = func(identity string) bool { return matchKnown(known, id, identity) != nil }
 	for _, s := range c.Subs {
 		if s.Name == *sub {
 			r := s.Run(checks.Opts{Tier: *tier, Shard: *shard, Shards: *shards, Seed: *seed})
